@@ -2,7 +2,7 @@
 callee's contract at a call site."""
 import ast
 import z3
-from .values import (Sym, Ref, LObj, DObj, SetObj, Obj, Unsupported, sort_of, fresh, parse_ty, FuncRef, ExcVal,
+from .values import (Sym, Ref, LObj, DObj, SetObj, Obj, Unsupported, StaleContract, sort_of, fresh, parse_ty, FuncRef, ExcVal,
                      ClassRef)
 from .state import State, type_of, lift, mk
 from .loops import LoopSpec
@@ -55,7 +55,7 @@ def _check_header(qual, ordinal, node, spec):
         return
     got = ast.unparse(node).split('\n')[0].strip().rstrip(':')
     if got != want:
-        raise Unsupported('contract of %s is out of date: loop %d reads %r, the contract was written for %r' % (qual, ordinal, got, want))
+        raise StaleContract('contract of %s is out of date: loop %d reads %r, the contract was written for %r' % (qual, ordinal, got, want))
 
 
 def loops_in_order(fnode):
@@ -185,7 +185,7 @@ def verify_function(ip, con, fuel_note=None):
     ip.loop_specs = dict(ip.loop_specs)
     for ordinal, spec in con.loops.items():
         if ordinal < 1 or ordinal > len(loops):
-            raise Unsupported('contract of %s names loop %d but the function has %d loops' % (con.qual, ordinal, len(loops)))
+            raise StaleContract('contract of %s names loop %d but the function has %d loops' % (con.qual, ordinal, len(loops)))
         _check_header(con.qual, ordinal, loops[ordinal - 1], spec)
         ip.loop_specs[id(loops[ordinal - 1])] = spec
     for cq, cl in con.callee_loops.items():
@@ -193,7 +193,7 @@ def verify_function(ip, con, fuel_note=None):
         cloops = loops_in_order(cnode)
         for ordinal, spec in cl.items():
             if ordinal < 1 or ordinal > len(cloops):
-                raise Unsupported('contract of %s names loop %d of callee %s which has %d loops' % (con.qual, ordinal, cq, len(cloops)))
+                raise StaleContract('contract of %s names loop %d of callee %s which has %d loops' % (con.qual, ordinal, cq, len(cloops)))
             spec = spec if isinstance(spec, LoopSpec) else LoopSpec(**spec)
             _check_header(cq, ordinal, cloops[ordinal - 1], spec)
             ip.loop_specs[id(cloops[ordinal - 1])] = spec
@@ -210,7 +210,7 @@ def verify_function(ip, con, fuel_note=None):
                     pass
         missing = [k for k in con.cuts if k not in texts]
         if missing:
-            raise Unsupported('contract of %s is out of date: no statement reads %r' % (con.qual, missing[0]))
+            raise StaleContract('contract of %s is out of date: no statement reads %r' % (con.qual, missing[0]))
     ip.cur_func = con.qual
     try:
         for ci, case in enumerate(con.cases):
